@@ -614,6 +614,14 @@ func init() {
 				cfg.PCrash = 0.04
 				cfg.BadgerCache = []int{0, 0, 100, 200}[r.Intn(4)]
 				cfg.Steps += 60
+				if r.Bool(0.6) {
+					// persistent joiners: they commit the blocks that precede their
+					// acceptance without signing them (another write path)
+					cfg.PJoin = 0.03
+					cfg.MaxJoins = 2
+					cfg.PJoinerBadger = 0.8
+					cfg.Steps += 60
+				}
 			}
 			return cfg
 		},
